@@ -35,7 +35,16 @@ P.update({
             "Classifier of 'malformed' is written by hand from the statement; duplicate keys, out-of-range numbers and nesting >100 are don't-care (containment only). Allocation failure is out of reach.", "4 C06"),
 })
 
-CLAIMED = ["C01", "C02", "C03", "C04", "C05", "C06"]
+P.update({
+    "C07": ("exploration", "runtime monitor: client/server event-history check (own-token delivery, busy exclusivity, request conservation) over exhaustive op sequences and multi-threaded stress against a scripted fake server; TSan + Miri overlays",
+            "~60 reply objects through call() (error-kind mapping); every sequence over {call, more(0), more(2), next, oneway, resend, drain} up to length 4/6 against a scripted fake server, with a conservation check (requests on the wire = calls that were allowed to go out, in order); 2-8 real threads sharing one connection with injected reply delays: every outcome is own-token or ConnectionBusy, no foreign reply, no partial bytes, requests seen = successful calls. Distinct interleavings observed are counted.",
+            "Thread schedules are sampled (OS scheduling + delays), not enumerated; TSan/Miri overlays in the thorough tier look for races the history cannot show.", "4 C07"),
+    "C17": ("exploration", "runtime monitor: round-trip oracle over all three serde_json entry points + independently built expected wire values; exhaustive small domain + random",
+            "All Request/Reply values over {unset,true,false}^3 flags x 6 method strings x 6 parameter shapes, all string sets/maps over an 18-key pool (empty, non-ASCII, quotes, backslashes, control characters) up to size 3 exhaustively plus random larger ones, ServiceInfo and description types, through to_string/to_vec/to_value and from_str/from_slice/from_value; the reverse direction starts from hand-built JSON objects (including null-valued optionals).",
+            "Trusts serde_json's own value parser as the reference for 'is JSON' and for structural comparison.", "4 C17"),
+})
+
+CLAIMED = ["C01", "C02", "C03", "C04", "C05", "C06", "C07", "C17"]
 
 ALL = ["C%02d" % i for i in range(1, 21)]
 
